@@ -22,6 +22,7 @@ int opsim_rp_out_range_impl(struct OpusRepacketizer *rp, int begin, int end, uns
 int opsim_parse_impl(const unsigned char *data, int len, int self_delimited, unsigned char *toc,
                      int offs[48], int sizes[48], int *payload_offset, int *packet_offset,
                      int *padding_off, int *padding_len);
+int opsim_silk_lbrr_flags(const unsigned char *pkt, int len, int *mid, int *side);
 int opsim_force_mode_request(void);
 int opsim_mode_const(int which); /* 0 SILK_ONLY 1 HYBRID 2 CELT_ONLY */
 int opsim_voice_ratio_request(void);
